@@ -990,6 +990,31 @@ func ruleClientGoAwayDrain(p *Prog, r *Out) {
 		})
 	}
 	r.check(byFrame == "", "the read loop does not stop on the identity of a frame's stream", p.pos(dp.Pos()), "no `fr.Stream() == closeRef` test", "after GOAWAY the read loop decides to stop by comparing the current frame's stream with last-stream-id ("+byFrame+"): it leaves at the first frame on that stream, so a response that is HEADERS followed by DATA is cut off after its HEADERS, and requests on lower streams that are still open are abandoned (RFC 7540 s6.8: streams at or below last-stream-id complete normally)")
+	// every GOAWAY is taken at its word: a server shutting down gracefully sends
+	// GOAWAY(2^31-1) and then GOAWAY(N), and the second one is what disclaims
+	// the streams above N (RFC 7540 s6.8)
+	if rn := p.decl("(*Conn).readNext"); rn != nil {
+		okEvery := false
+		ast.Inspect(rn.Body, func(n ast.Node) bool {
+			cc, ok := n.(*ast.CaseClause)
+			if !ok || len(cc.List) != 1 || p.text(cc.List[0]) != "FrameGoAway" {
+				return true
+			}
+			for _, s := range cc.Body {
+				ifs, ok := s.(*ast.IfStmt)
+				if !ok || squash(p.text(ifs.Cond)) != "ga.stream==0" {
+					continue
+				}
+				eb, ok := ifs.Else.(*ast.BlockStmt) // a plain else: no further condition
+				if !ok {
+					continue
+				}
+				okEvery = hasStmt(p, eb.List, "c.closeRef=ga.stream") && hasStmt(p, eb.List, "c.state=connStateClosed") && hasStmt(p, eb.List, "c.failAbove(ga.stream)")
+			}
+			return true
+		})
+		r.check(okEvery, "every GOAWAY that names a stream moves the reference and disclaims what is above it", p.pos(rn.Pos()), "if ga.stream == 0 {...} else { closeRef = ga.stream; state = closed; failAbove(ga.stream) }", "a GOAWAY with a last-stream-id is no longer applied unconditionally (reference moved, requests above it failed): the second frame of a graceful shutdown, which lowers the id, is ignored and the requests it disclaims wait for their timeout instead of being retried")
+	}
 	// the loop's stop test consults a table scan
 	var drainFn *ast.FuncDecl
 	ast.Inspect(rl.Body, func(n ast.Node) bool {
